@@ -314,7 +314,11 @@ def strat_hist_op(tier):
     return st.one_of(call, call, call,
                      st.fixed_dictionaries({'op': st.just('clear'), 'which': st.sampled_from(['mdft', 'czt', 'both'])}),
                      st.fixed_dictionaries({'op': st.just('precision'), 'bits': st.sampled_from([32, 64])}),
-                     st.fixed_dictionaries({'op': st.just('repeat'), 'idx': st.integers(0, 30)}))
+                     st.fixed_dictionaries({'op': st.just('repeat'), 'idx': st.integers(0, 30)}),
+                     # the partner of an earlier call: the return leg of a round trip (other direction, input and output grids swapped,
+                     # same Q and shift), the other direction on the same grids, or the same function on the swapped grids
+                     st.fixed_dictionaries({'op': st.just('partner'), 'idx': st.integers(0, 30), 'seed': st.integers(0, 50),
+                                            'how': st.sampled_from(['return-leg', 'return-leg', 'other-direction', 'swapped-grids'])}))
 
 
 class ExecutorHistory:
@@ -365,6 +369,18 @@ class ExecutorHistory:
                 return
             op = self.calls[op['idx'] % len(self.calls)]
             ctx.label('op:repeat')
+        if op['op'] == 'partner':
+            if not self.calls:
+                ctx.label('op:partner-noop')
+                return
+            base = self.calls[op['idx'] % len(self.calls)]
+            g = base['geo']
+            other = {'dft2': 'idft2', 'idft2': 'dft2', 'czt2': 'iczt2', 'iczt2': 'czt2'}[base['fn']]
+            swapped = dict(g, shape=list(U.as_pair(U.tup(g['out']))), out=list(g['shape']))
+            fn2, geo2 = {'return-leg': (other, swapped), 'other-direction': (other, g), 'swapped-grids': (base['fn'], swapped)}[op['how']]
+            op = {'op': 'call', 'fn': fn2, 'geo': geo2, 'dtype': base['dtype'], 'seed': op['seed']}
+            ctx.label('op:partner:' + ('unequal-grids' if tuple(geo2['shape']) != U.as_pair(U.tup(geo2['out'])) else 'equal-grids'))
+            ctx.nt(True)
         self.calls.append(op)
         geo = op['geo']
         fn = op['fn']
